@@ -403,6 +403,7 @@ type attackSim struct {
 	startSlack  time.Duration // upper bound of (vegeta's own start instant - atkStart)
 	haveSlack   bool
 	durTrig     bool
+	durPossible bool
 	simEnd      time.Duration
 
 	trigStep   int // first step at which a non-Stop stop trigger existed (-1 none)
